@@ -7,9 +7,12 @@ Strings are byte lists.  The standard-library parsers the Go code calls are NOT 
 are parameters (`Oracles`): `net.ParseCIDR`, `net.SplitHostPort`, `net.ParseIP` and
 `idna.Lookup.ToASCII`.  Every definition and theorem is for arbitrary oracle functions; in the
 differential run the harness tabulates the real functions on the strings that occur.
-`net/url` is not modelled either: a request is given as the scheme plus the result of
-`net.SplitHostPort(canonicalAddr(reqURL))` and of `netip.ParseAddr(host)`; a proxy setting is
-given as the `String()` of the URL `parseProxy` produced (or none).
+`net/url` is not modelled either: a request is given as the scheme plus the pair
+`canonicalHostPort(reqURL)` (IDNA form of `url.Hostname()`, `url.Port()` or the scheme default) and
+`netip.ParseAddr(host)`; a proxy setting is given as the `String()` of the URL `parseProxy`
+produced (or none).  `proxyForURL` hands host and port to `useProxyHostPort` directly; the
+string wrapper `useProxy(addr)` (split, then the same function) is only reachable from tests and
+is not modelled.
 -/
 namespace NetVerif.Model.HttpProxy
 open NetVerif.Model.NetIP
@@ -116,10 +119,9 @@ def init (O : Oracles) (cgi : Bool) (httpProxy httpsProxy : Option (List Nat)) (
   let (ipM, domM) := initLoop O (splitComma noProxy) [] []
   { cgi := cgi, httpProxy := httpProxy, httpsProxy := httpsProxy, ipMatchers := ipM, domainMatchers := domM }
 
-/-- A request as `useProxy` sees it. `addrOk = false`: `net.SplitHostPort(canonicalAddr)` failed. -/
+/-- A request as `useProxyHostPort` sees it. -/
 structure Req where
   scheme : List Nat
-  addrOk : Bool
   host : List Nat
   port : List Nat
   ip : Option (List Nat)
@@ -129,10 +131,9 @@ def localhost : List Nat := [108, 111, 99, 97, 108, 104, 111, 115, 116]
 def schemeHTTP : List Nat := [104, 116, 116, 112]
 def schemeHTTPS : List Nat := [104, 116, 116, 112, 115]
 
-/-- `config.useProxy(addr)`. (`len(addr) == 0` cannot happen: `net.JoinHostPort` always emits ':'.) -/
+/-- `config.useProxyHostPort(host, port)`. -/
 def useProxy (c : Cfg) (r : Req) : Bool :=
-  if !r.addrOk then false
-  else if r.host = localhost then false
+  if r.host = localhost then false
   else if (match r.ip with | some ip => isLoopback ip | none => false) then false
   else
     let addr := toLower (trimSpace r.host)
